@@ -19,12 +19,16 @@ from .. import core, tlaval
 
 TEXTS = {'latin1': 'caf\xe9 \xfc', 'utf-8': 'caf\xe9 cafe\u0301 \u2126 日本',   # composed, decomposed, compatibility
          'cp1252': '€ caf\xe9',
-         'shift_jis': '日本語', 'utf-16': '\xe9 日',
+         'shift_jis': '日本語 \u301c\u2212\xa2\xa3\xac\u2016', 'utf-16': '\xe9 日',
+         # characters on which a national charset and its vendor superset (cp932, gbk, cp949) disagree
+         'gb2312': '中文 \u2015\u30fb', 'euc_kr': '한글 똠',
          # encodings whose bytes can all be below 0x80 without being ASCII text
          'utf-16-le': 'Piano 1', 'iso2022_jp': '日本語 abc'}
 UNDECODABLE = {'utf-8': b'\xff\xfe\xfa', 'shift_jis': b'\x81', 'utf-16': b'\x00\xd8\x00',
-               'cp1252': b'\x81', 'utf-16-le': b'\x00\xd8\x00', 'iso2022_jp': b'\xff'}
-UNENCODABLE = {'latin1': '日', 'cp1252': '日', 'shift_jis': '\xe9', 'iso2022_jp': '\xe9'}
+               'cp1252': b'\x81', 'utf-16-le': b'\x00\xd8\x00', 'iso2022_jp': b'\xff',
+               'gb2312': b'\xff', 'euc_kr': b'\xff'}
+UNENCODABLE = {'latin1': '日', 'cp1252': '日', 'shift_jis': '\xe9', 'iso2022_jp': '\xe9', 'euc_kr': '\xe9',
+               'gb2312': '\u20ac'}
 
 
 def vlq(n):
